@@ -36,6 +36,15 @@ Definition apply_t (t : tcfg) (fn : func) : func :=
   end.
 
 (* arguments, caller context, does the transform's precondition hold on this input, fpy2 on the original, fpy2 on the transformed *)
+(* the same transform with the PROPOSED REPAIRS (fixes/C08-*.diff) applied; only elim_iter and fuse differ *)
+Definition apply_t_fixed (t : tcfg) (fn : func) : func :=
+  match t with
+  | TIter e z => elim_iter_fixed e z fn
+  | TFuse => reduce_fusion_fixed fn
+  | _ => apply_t t fn
+  end.
+
+(* arguments, caller context, does the transform's precondition hold on this input, fpy2 on the original, fpy2 on the transformed *)
 Definition run8 := (list cval * option ctx * bool * res cval * res cval)%type.
 Definition case8 := (program * ident * tcfg * func * list run8)%type.
 
@@ -57,12 +66,28 @@ Definition preserved (orig trans : res cval) : bool :=
 Definition entry_fn (P : program) (f : ident) : func :=
   match lookup_fn P f with Some fn => fn | None => Func [] None [] end.
 
-Definition model_out (c : case8) : func :=
-  let '(P, f, t, _, _) := c in apply_t t (entry_fn P f).
+Definition matches (P : program) (f : ident) (m real : func) : bool :=
+  func_alpha_eqb (func_names (entry_fn P f)) m real.
 
-Definition struct_ok (c : case8) : bool :=
+(* which model the real output equals: the transform as coded, else the repaired one *)
+Definition coded_ok (c : case8) : bool :=
+  let '(P, f, t, real, _) := c in matches P f (apply_t t (entry_fn P f)) real.
+
+Definition fixed_ok (c : case8) : bool :=
+  let '(P, f, t, real, _) := c in matches P f (apply_t_fixed t (entry_fn P f)) real.
+
+Definition model_out (c : case8) : func :=
+  let '(P, f, t, _, _) := c in
+  if coded_ok c then apply_t t (entry_fn P f)
+  else if fixed_ok c then apply_t_fixed t (entry_fn P f)
+  else apply_t t (entry_fn P f).
+
+Definition struct_ok (c : case8) : bool := coded_ok c || fixed_ok c.
+
+(* the real output is the model output with a generated temporary merged into another name *)
+Definition name_collision (c : case8) : bool :=
   let '(P, f, t, real, _) := c in
-  func_alpha_eqb (func_names (entry_fn P f)) (apply_t t (entry_fn P f)) real.
+  negb (struct_ok c) && func_alpha_relaxed (func_names (entry_fn P f)) (apply_t t (entry_fn P f)) real.
 
 Definition prop_ok (c : case8) : bool :=
   let '(_, _, _, _, runs) := c in forallb (fun r : run8 => let '(_, _, pre, o, t) := r in negb pre || preserved o t) runs.
@@ -70,24 +95,24 @@ Definition prop_ok (c : case8) : bool :=
 Definition model_orig (P : program) (f : ident) (r : run8) : res cval :=
   let '(args, caller, _, _, _) := r in run c08_numops P fuel8 f args caller.
 
-Definition model_trans (P : program) (f : ident) (t : tcfg) (r : run8) : res cval :=
-  let '(args, caller, _, _, _) := r in run c08_numops (prog_update P f (apply_t t)) fuel8 f args caller.
+Definition model_trans (P : program) (f : ident) (m : func) (r : run8) : res cval :=
+  let '(args, caller, _, _, _) := r in run c08_numops (prog_update P f (fun _ => m)) fuel8 f args caller.
 
 Definition sem_ok (c : case8) : bool :=
   let '(P, f, t, _, runs) := c in
   forallb (fun r : run8 => let '(_, _, _, o, tr) := r in
-             res_eqb (model_orig P f r) o && res_eqb (model_trans P f t r) tr) runs.
+             res_eqb (model_orig P f r) o && res_eqb (model_trans P f (model_out c) r) tr) runs.
 
 Definition check8 (c : case8) : bool := struct_ok c && prop_ok c && sem_ok c.
 
-(* diagnosis of a failing case: [struct_ok; then per run: property instance holds (or precondition fails),
+(* diagnosis of a failing case: [struct_ok; name_collision; coded_ok; then per run: property instance holds (or precondition fails),
    model = fpy2 on the original, model = fpy2 on the transformed] *)
 Definition diag8 (c : case8) : list bool :=
   let '(P, f, t, _, runs) := c in
-  struct_ok c ::
+  struct_ok c :: name_collision c :: coded_ok c ::
   flat_map (fun r : run8 => let '(_, _, pre, o, tr) := r in
-          [negb pre || preserved o tr; res_eqb (model_orig P f r) o; res_eqb (model_trans P f t r) tr]) runs.
+          [negb pre || preserved o tr; res_eqb (model_orig P f r) o; res_eqb (model_trans P f (model_out c) r) tr]) runs.
 
 (* what the model computes on a run (for replays) *)
 Definition model8 (c : case8) : list (res cval * res cval) :=
-  let '(P, f, t, _, runs) := c in map (fun r => (model_orig P f r, model_trans P f t r)) runs.
+  let '(P, f, t, _, runs) := c in map (fun r => (model_orig P f r, model_trans P f (model_out c) r)) runs.
